@@ -706,7 +706,6 @@ CONSTANT NOpts = %(nopts)d
 CONSTANT Kinds = {%(kinds)s}
 CONSTANT AsImplemented = FALSE
 CONSTANT Pairs = %(pairs)s
-CONSTANT Eff = %(eff)s
 CONSTRAINT Bounded
 INVARIANT TypeOK
 INVARIANT FreshNetwork
@@ -725,10 +724,12 @@ CACHE_OPTS = {1: {}, 2: {"tolerance": 0.2}, 3: {"elide_short_roads": True, "tole
 VERSIONS = {1: None, 2: 1_000_035}  # 1 = the code's own version, 2 = a bumped one
 
 
-def tla_seq(x):
-    if isinstance(x, (list, tuple)):
-        return "<<" + ", ".join(tla_seq(y) for y in x) + ">>"
-    return str(x)
+def eff_file(rows):
+    """Eff of MapCache.tla (class of the network parsed from map content d under option set o) as a JSON file."""
+    path = os.path.join(scratch(), "eff-" + hashlib.sha1(json.dumps(rows).encode()).hexdigest()[:10] + ".json")
+    with open(path, "w") as f:
+        json.dump(rows, f)
+    return path
 
 
 def option_universe():
@@ -1099,9 +1100,7 @@ def replay_subtree(item):
                     else:
                         stats["hits" if obs["outcome"] == "hit" else "parses"] += 1
                         right = obs["cls"] == [want]
-                        if (obs["outcome"] == "hit" and L["outcome"] == "parse" and L["why"] == "options-digest" and right
-                                and eff[(rec["cache"]["c"][0], rec["cache"]["c"][1])] == want if rec["cache"]["k"] == "valid" and not L["write"]
-                                else obs["outcome"] == "hit" and L["outcome"] == "parse" and L["why"] == "options-digest" and right):
+                        if obs["outcome"] == "hit" and L["outcome"] == "parse" and L["why"] == "options-digest" and right:
                             # the cached network was built under another spelling of an equivalent option
                             # valuation and IS the network asked for: hit or parse, both fine (don't-care)
                             dontcare = True
@@ -1141,8 +1140,8 @@ def cache_fault_sweep(item):
     it must never raise and never return anything else."""
     src, d, offsets = item
     _limit_memory(4)
-    world = CacheWorld(src, d, 2)
-    world.apply({"a": "Load", "use": False, "write": True, "kind": ""})
+    world = CacheWorld(renumber_tables(build_tables((src, d + "-ref", [{}], 1))), d)
+    world.apply({"a": "Load", "use": False, "write": True, "kind": "", "o": 0})
     good = open(world.cache, "rb").read()
     n = len(good)
     out = {"size": n, "flips": 0, "truncs": 0, "still_hit_same_network": 0, "fell_back": 0,
@@ -1162,13 +1161,14 @@ def cache_fault_sweep(item):
             with open(world.cache, "wb") as f:
                 f.write(data)
             try:
-                obs = world.apply({"a": "Load", "use": True, "write": False, "kind": ""})
+                obs = world.apply({"a": "Load", "use": True, "write": False, "kind": "", "o": 0})
+                obs.pop("observables", None)
             except Exception as e:  # what fromFile returned is so damaged that it cannot even be exported
-                obs = {"raised": None, "outcome": "hit", "net": [-1, -1], "calls": ["pickle:ok"],
+                obs = {"raised": None, "outcome": "hit", "cls": [], "calls": ["pickle:ok"],
                        "unusable": f"{type(e).__name__}: {e}"[:160]}
             if obs["raised"]:
                 out["raised"].append({"fault": [kind, off], "observation": obs})
-            elif obs.get("net") == [1, 1]:
+            elif obs.get("cls") == [1]:
                 out["still_hit_same_network" if obs["outcome"] == "hit" else "fell_back"] += 1
             else:
                 # AS-IMPLEMENTED deviation "corrupt-cache-served" (see MapCache.tla): trigger = the header
@@ -1181,29 +1181,151 @@ def cache_fault_sweep(item):
     return out
 
 
+def run_cache_model(name, maxlen, nmaps, nopts, kinds, pairs, eff_rows, need):
+    """Run TLC on MapCache.tla (no side effects on the Check: several models run in threads)."""
+    cfg = CACHE_CFG % {"maxlen": maxlen, "nmaps": nmaps, "nopts": nopts, "kinds": ", ".join(f'"{k}"' for k in kinds),
+                       "pairs": "TRUE" if pairs else "FALSE"}
+    res = run_tlc("MapCache", cfg, env={"EFF": eff_file(eff_rows)}, coverage=True, timeout=1500, workers=4, heap="2g")
+    for a in need:
+        if res.coverage.get(a, (0, 0))[1] == 0:
+            raise MachineryError(f"{name}: action {a} never taken (vacuous model)")
+    records = [o for o in res.outputs if "hist" in o and 0 < len(o["hist"]) <= maxlen]
+    if not records:
+        raise MachineryError(f"{name} printed no behaviours")
+    return name, res, records
+
+
+def with_prefixes(records, full):
+    """the chosen complete behaviours and every behaviour that is a prefix of one of them"""
+    want = set()
+    for r in full:
+        h = r["hist"]
+        for k in range(1, len(h) + 1):
+            want.add(json.dumps(h[:k], sort_keys=True))
+    return [r for r in records if json.dumps(r["hist"], sort_keys=True) in want]
+
+
+def plan_replay(label, tables, chosen):
+    """work items (one per first action) for the behaviours chosen for replay"""
+    groups = {}
+    for r in chosen:
+        groups.setdefault(json.dumps(r["hist"][0], sort_keys=True), []).append(r)
+    return [("replay", label, (tables, os.path.join(scratch(), f"cache-{label}-{gi}"), recs))
+            for gi, (_k, recs) in enumerate(sorted(groups.items()))]
+
+
+def cache_job(job):
+    """Worker: one replay group or one chunk of the fault sweep (a single pool keeps all workers busy)."""
+    kind, label, payload = job
+    t0 = time.time()
+    out = replay_subtree(payload) if kind == "replay" else cache_fault_sweep(payload)
+    return kind, label, out, time.time() - t0
+
+
+def report_replay(ck, label, tables, recs, problems, stats, tot, why):
+    rel = os.path.relpath(tables["src"], MAPROOT)
+    for k in tot:
+        tot[k] += stats[k]
+    for k, v in stats["why"].items():
+        why[k] = why.get(k, 0) + v
+    for p in problems:
+        ck.violation(
+            f"cache protocol [{label}], map {rel}, after {[act_text(a, tables['opts']) for a in p['hist']]}: {p['problems'][0]}",
+            {"property": "C20", "spec": "MapCache", "map": rel, "behaviour": p["hist"],
+             "problems": p["problems"], "observation": p["observation"], "expected": p["expected"],
+             "optlist": tables["opts"], "nmaps": len(tables["maps"]),
+             "behaviour_text": [act_text(a, tables["opts"]) for a in p["hist"]]},
+        )
+    for r in recs:
+        ck.case(("cache", label, rel, json.dumps(r["hist"])), len(r["hist"]) >= 2)
+    ck.validated(len(recs))
+
+
 def mapcache_part(ck, tier):
     sd = seed()
-    if tier == "quick":
+    rnd = random.Random(sd * 31 + 7)
+    quick = tier == "quick"
+    if quick:
         maxlen, nopts, kinds = 4, 2, ["truncate", "garbage"]
     else:
         maxlen, nopts, kinds = 4, 3, ["truncate", "garbage", "cutbody"]
-    cfg = CACHE_CFG % {"maxlen": maxlen, "nopts": nopts, "kinds": ", ".join(f'"{k}"' for k in kinds)}
-    res = run_tlc("MapCache", cfg, coverage=True, timeout=1500, workers=4, heap="2g")
-    ck.add_tlc("MapCache", res)
-    for a in ("Load", "EditMap", "ChangeOptions", "CorruptCache", "BumpVersion"):
-        if res.coverage.get(a, (0, 0))[1] == 0:
-            raise MachineryError(f"MapCache action {a} never taken (vacuous model)")
-    # the named as-implemented deviation must be a real deviation: with it TLC refutes FreshNetwork
+
+    # ---- references (fresh parses outside fromFile) for every world that is replayed
+    tiny = os.path.join(MAPROOT, "misc", "zero_width.xodr")
+    holes = os.path.join(MAPROOT, "LGSVL", "borregasave.xodr")
+    universe = option_universe()
+    inter_opts = [{}] + [o for o in universe if "fill_intersections" in o]
+    specs = [("free", tiny, [CACHE_OPTS[i] for i in range(1, nopts + 1)], 2),
+             ("pairs", tiny, universe, 2),
+             ("pairs-intersections", holes, inter_opts, 1)]
+    if not quick:
+        specs.append(("free2", os.path.join(MAPROOT, "opendrive.org", "CulDeSac.xodr"), [CACHE_OPTS[i] for i in range(1, nopts + 1)], 2))
+    t0 = time.time()
+    built = pmap(build_tables, [(src, os.path.join(scratch(), "ref-" + lab), opts, nm) for lab, src, opts, nm in specs], chunk=1)
+    T = {lab: renumber_tables(b) for (lab, _s, _o, _n), b in zip(specs, built)}
+    ck.cov.setdefault("phase_wall_s", {})["cache_references"] = round(time.time() - t0, 1)
+
+    def eff_rows(t):
+        K = len(t["opts"])
+        return [[t["eff"][(d, o)] for o in range(1, K + 1)] for d in sorted(t["maps"])]
+
+    for lab in ("free", "free2"):
+        if lab in T and any(len(set(row)) != len(row) for row in eff_rows(T[lab])):
+            raise MachineryError("reference networks of the free-mode option sets are not pairwise distinguishable")
+    # what the option universe looks like on each map (evidence), and the observables the check relies on
+    uni = {}
+    for lab in ("pairs", "pairs-intersections"):
+        t = T[lab]
+        uni[lab] = {"map": os.path.relpath(t["src"], MAPROOT), "refused_by_the_parser": t["refused"],
+                    "option_sets": [{"options": optname(o), "class": t["eff"][(1, i + 1)],
+                                     "observables": {k: v for k, v in t["obs"][(1, i + 1)].items() if k != "at_probes"}}
+                                    for i, o in enumerate(t["opts"])],
+                    "probe_points": len(t["probes"])}
+    ck.cov["cache_option_universe"] = uni
+
+    def cls(lab, opts):
+        t = T[lab]
+        return t["eff"][(1, t["opts"].index(opts) + 1)] if opts in t["opts"] else None
+
+    if cls("pairs", {"tolerance": 0}) in (None, cls("pairs", {})) or cls("pairs", {"tolerance": 0.0}) in (None, cls("pairs", {})):
+        raise MachineryError("tolerance=0 is not distinguishable from the default on the tiny map: the option universe lost its teeth")
+    if cls("pairs-intersections", {"fill_intersections": False}) in (None, cls("pairs-intersections", {})):
+        raise MachineryError("fill_intersections=False is not distinguishable from the default on the intersection map")
+
+    tot = {"edges": 0, "loads": 0, "hits": 0, "parses": 0, "leaves": 0, "dontcare_equivalent_options_hit": 0}
+    why = {}
+
+    # ---- TLC: the free model, the two pairs models and the deviation run, side by side
+    from concurrent.futures import ThreadPoolExecutor
+
     dev_cfg = ("SPECIFICATION Spec\nCONSTANT MaxLen = 3\nCONSTANT NMaps = 2\nCONSTANT NOpts = 2\n"
-               'CONSTANT Kinds = {"truncate"}\nCONSTANT AsImplemented = TRUE\nCONSTRAINT Bounded\n'
-               "INVARIANT TypeOK\nINVARIANT FreshNetwork\nCHECK_DEADLOCK FALSE\n")
-    dres = run_tlc("MapCache", dev_cfg, expect_fail=True, timeout=600, workers=2, heap="1g")
+               'CONSTANT Kinds = {"truncate"}\nCONSTANT AsImplemented = TRUE\nCONSTANT Pairs = FALSE\n'
+               "CONSTRAINT Bounded\nINVARIANT TypeOK\nINVARIANT FreshNetwork\nCHECK_DEADLOCK FALSE\n")
+    pair_models = (("pairs", ["truncate", "garbage"]), ("pairs-intersections", ["truncate"]))
+    eff_dev = eff_file([[1, 2], [1, 2]])
+    t0 = time.time()
+    with ThreadPoolExecutor(max_workers=4) as ex:
+        f_free = ex.submit(run_cache_model, "MapCache", maxlen, 2, nopts, kinds, False, eff_rows(T["free"]),
+                           ("DoLoad", "DoEditMap", "DoChangeOptions", "DoCorruptCache", "DoBumpVersion"))
+        f_dev = ex.submit(run_tlc, "MapCache", dev_cfg, env={"EFF": eff_dev}, expect_fail=True, timeout=600, workers=2, heap="1g")
+        f_pairs = {lab: ex.submit(run_cache_model, "MapCache(" + lab + ")", 5, len(T[lab]["maps"]), len(T[lab]["opts"]), pk, True,
+                                  eff_rows(T[lab]), ("DoSetOptions", "DoLoad", "DoIdle", "DoBumpVersion", "DoCorruptCache"))
+                   for lab, pk in pair_models}
+        name, res, records = f_free.result()
+        ck.add_tlc(name, res)
+        dres = f_dev.result()
+        pair_out = {}
+        for lab, _pk in pair_models:
+            name, pres, precs = f_pairs[lab].result()
+            ck.add_tlc(name, pres)
+            pair_out[lab] = precs
+    ck.cov.setdefault("phase_wall_s", {})["cache_tlc"] = round(time.time() - t0, 1)
+    # the named as-implemented deviation must be a real deviation: with it TLC refutes FreshNetwork
     if dres.invariant_violated != "FreshNetwork":
         raise MachineryError(f"MapCache with the as-implemented deviation should violate FreshNetwork, got {dres.invariant_violated} / {dres.error}")
     ck.cov["cache_deviation_refuted_by_tlc"] = "FreshNetwork"
-    records = [o for o in res.outputs if "hist" in o and 0 < len(o["hist"]) <= maxlen]
-    if not records:
-        raise MachineryError("MapCache printed no behaviours")
+
+    # ---- 1. free mode: every action sequence up to maxlen over a few option sets
     whys = {}
     for r in records:
         if r["hist"][-1]["a"] == "Load":
@@ -1213,68 +1335,70 @@ def mapcache_part(ck, tier):
             raise MachineryError(f"MapCache: no behaviour exercises a load with cache decision '{w}'")
     ck.cov["cache_behaviours"] = len(records)
     ck.cov["cache_load_decisions_in_model"] = whys
-
-    # which behaviours are replayed: quick = all of length <= 3 and a seeded sample of length 4
-    if tier == "quick":
-        rnd = random.Random(sd)
+    if quick:  # all behaviours of length <= 3 and a seeded sample of length 4
         full = [r for r in records if len(r["hist"]) == maxlen]
-        keep = {json.dumps(r["hist"]) for r in rnd.sample(full, min(len(full), 300))}
-        chosen = []
-        for r in records:
-            if len(r["hist"]) < maxlen or json.dumps(r["hist"]) in keep:
-                chosen.append(r)
-        # every prefix of a chosen behaviour is a behaviour TLC printed too (checked at each node)
-        ck.cov["cache_replay_rule"] = f"all behaviours of length <= {maxlen - 1} and {len(keep)} seeded of length {maxlen}"
+        keep = {json.dumps(r["hist"]) for r in rnd.sample(full, min(len(full), 180))}
+        chosen = [r for r in records if len(r["hist"]) < maxlen or json.dumps(r["hist"]) in keep]
+        ck.cov["cache_replay_rule"] = f"free mode: all behaviours of length <= {maxlen - 1} and {len(keep)} seeded of length {maxlen}"
     else:
         chosen = records
-        ck.cov["cache_replay_rule"] = f"all behaviours of length <= {maxlen}"
-    maps = [os.path.join(MAPROOT, "misc", "zero_width.xodr")]
-    if tier != "quick":
-        maps.append(os.path.join(MAPROOT, "opendrive.org", "CulDeSac.xodr"))
-    items = []
-    for mi, src in enumerate(maps):
-        groups = {}
-        for r in chosen:
-            first = r["hist"][0]
-            groups.setdefault(json.dumps(first, sort_keys=True), []).append(r)
-        for gi, (_k, recs) in enumerate(sorted(groups.items())):
-            items.append((src, os.path.join(scratch(), f"cache{mi}_{gi}"), nopts, recs))
-    results = pmap(replay_subtree, items, chunk=1)
-    tot = {"edges": 0, "loads": 0, "hits": 0, "parses": 0, "leaves": 0}
-    why = {}
-    for (src, _d, _n, recs), (problems, stats) in zip(items, results):
-        for k in tot:
-            tot[k] += stats[k]
-        for k, v in stats["why"].items():
-            why[k] = why.get(k, 0) + v
-        for p in problems:
-            ck.violation(
-                f"cache protocol, map {os.path.relpath(src, MAPROOT)}, after {[a['a'] + (':' + a['kind'] if a['kind'] else '') + ('(use=%s,write=%s)' % (a['use'], a['write']) if a['a'] == 'Load' else '') for a in p['hist']]}: {p['problems'][0]}",
-                {"property": "C20", "spec": "MapCache", "map": os.path.relpath(src, MAPROOT), "behaviour": p["hist"],
-                 "problems": p["problems"], "observation": p["observation"], "expected": p["expected"],
-                 "options": {str(k): v for k, v in CACHE_OPTS.items()}},
-            )
-        for r in recs:
-            ck.case(("cache", os.path.basename(src), json.dumps(r["hist"])), len(r["hist"]) >= 2)
-        ck.validated(len(recs))
-    ck.cov["cache_replay"] = dict(tot, load_decisions=why)
-    if (tot["hits"] == 0 or tot["parses"] == 0) and not ck.violations:
-        raise MachineryError("cache replay saw no hit or no parse: observation is broken")
+        ck.cov["cache_replay_rule"] = f"free mode: all behaviours of length <= {maxlen}"
+    jobs = plan_replay("free", T["free"], chosen)
+    if "free2" in T:
+        jobs += plan_replay("free2", T["free2"], chosen)
     for r in records:
         if len(r["hist"]) == 3 and r["last"]["outcome"] == "hit":
             ck.sample({"cache_behaviour": r["hist"], "expected_last_load": r["last"], "expected_cache": r["cache"]}, limit=8)
             break
 
-    # ---- fault enumeration around CorruptCache on the smallest map
+    # ---- 2. pairs mode: the whole option universe, every ordered pair of option sets, with the cache
+    #         present / absent / stale (map edited, version bumped) / corrupt in between
+    pair_stats = {}
+    for lab, nsample in (("pairs", 120 if quick else None), ("pairs-intersections", 0 if quick else None)):
+        t = T[lab]
+        K = len(t["opts"])
+        recs = pair_out[lab]
+        full = [r for r in recs if len(r["hist"]) == 5]
+        core = [r for r in full if r["hist"][1]["write"] and r["hist"][2]["a"] == "Idle"]  # cache present and fresh
+        if len(core) != K * K:
+            raise MachineryError(f"{lab}: expected {K * K} ordered pairs of option sets, TLC printed {len(core)}")
+        rest = [r for r in full if not (r["hist"][1]["write"] and r["hist"][2]["a"] == "Idle")]
+        if nsample is not None:
+            rest = rnd.sample(rest, min(len(rest), nsample))
+        jobs += plan_replay(lab, t, with_prefixes(recs, core + rest))
+        pair_stats[lab] = {"option_sets": K, "classes": len({t["eff"][(1, o)] for o in range(1, K + 1)}),
+                           "behaviours_in_model": len(full), "ordered_pairs_replayed": len(core), "other_shapes_replayed": len(rest)}
+        for r in core:
+            if r["last"]["why"] == "options-digest" and r["hist"][3]["o"] != 1:
+                ck.sample({"cache_behaviour": [act_text(a, t["opts"]) for a in r["hist"]], "expected_last_load": r["last"]}, limit=8)
+                break
+
+    # ---- 3. fault enumeration around CorruptCache on the smallest map
     src = os.path.join(MAPROOT, "misc", "Issue274.xodr")
     world_size = 8000
-    step = 13 if tier == "quick" else 1
+    step = 17 if quick else 1
     offs = [("flip", o) for o in range(seed() % step, world_size, step)]
-    offs += [("trunc", o) for o in range(0, world_size, step * 4 if tier == "quick" else 3)]
-    chunks = [offs[i::6] for i in range(6)]
-    sweeps = pmap(cache_fault_sweep, [(src, os.path.join(scratch(), f"sweep{i}"), c) for i, c in enumerate(chunks)], chunk=1)
+    offs += [("trunc", o) for o in range(0, world_size, step * 4 if quick else 3)]
+    jobs += [("sweep", "sweep", (src, os.path.join(scratch(), f"sweep{i}"), offs[i::6])) for i in range(6)]
+
+    # ---- one pool for everything that touches the real code (the slow intersection map first)
+    order = {"pairs-intersections": 0, "free2": 1, "free": 2, "pairs": 3, "sweep": 4}
+    jobs.sort(key=lambda j: order.get(j[1], 9))
+    t0 = time.time()
+    done = pmap(cache_job, jobs, chunk=1)
+    ck.cov.setdefault("phase_wall_s", {})["cache_replay_and_sweep"] = round(time.time() - t0, 1)
+    work = {}
     agg = {"flips": 0, "truncs": 0, "still_hit_same_network": 0, "fell_back": 0, "raised": 0, "served_damaged": 0}
-    for sw in sweeps:
+    for (kind, label, payload), (_k, _l, out, dt) in zip(jobs, done):
+        work[label] = round(work.get(label, 0) + dt, 1)
+        if kind == "replay":
+            before = dict(tot)
+            report_replay(ck, label, payload[0], payload[2], out[0], out[1], tot, why)
+            if label in pair_stats:
+                for k in ("loads", "hits"):
+                    pair_stats[label][k] = pair_stats[label].get(k, 0) + tot[k] - before[k]
+            continue
+        sw = out
         for k in ("flips", "truncs", "still_hit_same_network", "fell_back"):
             agg[k] += sw[k]
         agg["cache_file_bytes"] = sw["size"]
@@ -1292,6 +1416,11 @@ def mapcache_part(ck, tier):
                  "how_to_replay": "Network.fromFile(copy of the map) to write map.snet; flip the byte; Network.fromFile(map, useCache=True) returns without error"},
                 known_key="corrupt-cache-served" if p["trigger"] else None,
             )
+    ck.cov["cache_worker_seconds"] = work
+    ck.cov["cache_option_pairs"] = pair_stats
+    ck.cov["cache_replay"] = dict(tot, load_decisions=why)
+    if (tot["hits"] == 0 or tot["parses"] == 0) and not ck.violations:
+        raise MachineryError("cache replay saw no hit or no parse: observation is broken")
     ck.cov["cache_fault_sweep"] = agg
     ck.validated(agg["flips"] + agg["truncs"])
     if agg["fell_back"] == 0 or agg["flips"] == 0:
@@ -1307,11 +1436,12 @@ def replay(path):
     ck = Check("C20", "quick", "model_checking")
     if "behaviour" in r:  # a MapCache behaviour
         src = os.path.join(MAPROOT, r["map"])
-        world = CacheWorld(src, os.path.join(scratch(), "replay"), 3)
+        tables = renumber_tables(build_tables((src, os.path.join(scratch(), "replay-ref"), r["optlist"], r.get("nmaps", 2))))
+        world = CacheWorld(tables, os.path.join(scratch(), "replay"))
         try:
             for act in r["behaviour"]:
                 obs = world.apply(act)
-                print(act, "->", obs, "cache:", world.cache_state())
+                print(act_text(act, tables["opts"]), "->", obs, "cache:", world.cache_state())
         finally:
             world.close()
         print("expected by MapCache.tla:", json.dumps(r.get("expected")))
